@@ -709,9 +709,12 @@ def build_flow(repo):
 //@ OBL C01.handler.ret
 // `ret`: the function ends with the single value on the operand stack, or with no value when the stack is empty
 pub fn ret(ctx: &mut Ctx, _args: &Vec<VString>) -> (r: Result<(), VErr>)
-    ensures (old(ctx).stack@.len() <= 1) <==> r is Ok,
-            r is Ok ==> final(ctx).stack@.len() == 0
-                && final(ctx).exit_state == Exit::ReturnValue(if old(ctx).stack@.len() == 1 {{ ReturnValue::Value(old(ctx).stack@[0]) }} else {{ ReturnValue::NoValue }}),
+    ensures r is Ok ==> old(ctx).stack@.len() <= 1 && final(ctx).stack@.len() == 0,
+            old(ctx).stack@.len() == 0 ==> r is Ok && final(ctx).exit_state == Exit::ReturnValue(ReturnValue::NoValue),
+            // C13 / C08 / C15: what is returned is the VALUE of the operand -- a pointer to a list element, a field or a map entry is
+            // copied out here, so that the caller (or a map / filter bridge) does not hold a live pointer into somebody else's data
+            r is Ok && old(ctx).stack@.len() == 1 ==> moved_out(old(ctx).stack@[0]) is Some
+                && final(ctx).exit_state == Exit::ReturnValue(ReturnValue::Value(moved_out(old(ctx).stack@[0])->Some_0)),
             rest(final(ctx)) == rest(old(ctx)),
 {{
 {render(hs['ret'], 1)}
@@ -749,7 +752,7 @@ pub fn load_fast(ctx: &mut Ctx, args: &Vec<VString>) -> (r: Result<(), VErr>)
 fn main() {{}}
 """
     obls = ctx_obls(names, ["C01"]) + [
-        Obl("C01.handler.ret", ["C01", "C09"], fn="ret", desc="ret: returns the single operand (or no value); more than one operand is an error"),
+        Obl("C01.handler.ret", ["C01", "C09", "C13", "C08", "C15"], fn="ret", desc="ret: returns the VALUE of the single operand, copied out of any element / field / entry pointer (or no value); more than one operand is an error"),
         Obl("C01.handler.store", ["C01", "C07", "C08"], fn="store", desc="store: the operand's value (moved out of pointers) is registered under the name; stack emptied"),
         Obl("C01.handler.store_fast", ["C01", "C15"], fn="store_fast", desc="store_fast: binds the register in the innermost frame to the operand's value"),
         Obl("C01.handler.load_fast", ["C01", "C15"], fn="load_fast", desc="load_fast: pushes the content of the register as bound in the executing function's frames"),
@@ -760,6 +763,65 @@ fn main() {{}}
 U_FLOW = VUnit("c01_dataflow", ["C01", "C07", "C08", "C09", "C15"], "data-flow handlers: ret, store, store_fast, load_fast", build_flow)
 U_FLOW.assumes = ["Stack::register_variable_flags / register_variable_local / find_name_in_function are abstract callees (unit c07_stack covers the stack side)", "heap pointers abstract (moved_out)"]
 UNITS.append(U_FLOW)
+
+
+# =====================================================================================================================
+# C05 / C02 / C08: the unary operators' handlers work on the operand's VALUE
+UNARY_SPEC = r"""
+// Primitive::negate (unit c02_negate: numeric kinds negate, everything else is an error)
+pub uninterp spec fn negated(p: Primitive) -> Option<Primitive>;
+impl Primitive {
+    #[verifier::external_body]
+    pub fn negate(&mut self) -> (r: Result<(), VErr>)
+        ensures r is Ok <==> negated(*old(self)) is Some, r is Ok ==> *final(self) == negated(*old(self))->Some_0
+    { unimplemented!() }
+}
+"""
+
+
+def build_unary(repo):
+    src = Source(repo)
+    log = []
+    names = ["pop", "push", "stack_size", "get_last_op_item", "set_last_op_item"]
+    ctx = ctx_impl(src, log, names)
+    extra = [Rule("R13", "ctx . get_last_op_item_mut ( )", "ctx . get_last_op_item ( )", why="&mut to the top element -> read, then set_last_op_item (same final stack)"),
+             Rule("R13", "* val = ! * val ;", "let verif_new = Primitive :: Bool ( ! * val ) ; ctx . set_last_op_item ( verif_new ) ;", why="write through the &mut -> set_last_op_item"),
+             Rule("R13", "val . negate ( ) ? ; Ok ( ( ) )", "let mut verif_v = clone_prim ( val ) ; verif_v . negate ( ) ? ; ctx . set_last_op_item ( verif_v ) ; Ok ( ( ) )", why="in-place update through the &mut -> copy, update, set_last_op_item (same final stack)")]
+    hs = {n: handler(src, log, n, extra) for n in ["neg", "not"]}
+    gen = header(log, f"{INSTR}: neg, not; {CTXF}: Ctx methods") + prelude("ctx.rs") + ctx + UNARY_SPEC + f"""
+//@ OBL C05.handler.neg
+// unary minus: the operand may be a plain value or a pointer to an element / field / entry -- the operator works on its VALUE
+pub fn neg(ctx: &mut Ctx, _args: &Vec<VString>) -> (r: Result<(), VErr>)
+    ensures
+        (old(ctx).stack@.len() > 0 && moved_out(old(ctx).stack@.last()) is Some && negated(moved_out(old(ctx).stack@.last())->Some_0) is Some) ==> r is Ok,
+        r is Ok ==> old(ctx).stack@.len() > 0 && moved_out(old(ctx).stack@.last()) is Some && negated(moved_out(old(ctx).stack@.last())->Some_0) is Some
+            && final(ctx).stack@ == old(ctx).stack@.drop_last().push(negated(moved_out(old(ctx).stack@.last())->Some_0)->Some_0),
+{{
+{render(hs['neg'], 1)}
+}}
+
+//@ OBL C05.handler.not
+// `!`: likewise on the operand's value; anything but a bool is an error
+pub fn not(ctx: &mut Ctx, _args: &Vec<VString>) -> (r: Result<(), VErr>)
+    ensures
+        (old(ctx).stack@.len() > 0 && moved_out(old(ctx).stack@.last()) is Some && moved_out(old(ctx).stack@.last())->Some_0 is Bool) <==> r is Ok,
+        r is Ok ==> final(ctx).stack@ == old(ctx).stack@.drop_last().push(Primitive::Bool(!moved_out(old(ctx).stack@.last())->Some_0->Bool_0)),
+{{
+{render(hs['not'], 1)}
+}}
+}} // verus!
+fn main() {{}}
+"""
+    obls = ctx_obls(names, ["C05"]) + [
+        Obl("C05.handler.neg", ["C05", "C02", "C08"], fn="neg", desc="neg: negates the VALUE of the operand (an element, field or entry arrives as a pointer) and succeeds whenever that value can be negated"),
+        Obl("C05.handler.not", ["C05", "C02", "C08"], fn="not", desc="not: inverts the bool the operand denotes, also through a pointer; anything else is an error"),
+    ]
+    return gen, obls, log
+
+
+U_UNARY = VUnit("c05_unary", ["C05", "C02", "C08"], "handlers of the unary operators: neg, not", build_unary)
+U_UNARY.assumes = ["Primitive::negate abstract (unit c02_negate covers it)", "heap pointers abstract (moved_out)"]
+UNITS.append(U_UNARY)
 
 
 # =====================================================================================================================
